@@ -267,6 +267,9 @@ def dpor_extra_spaces(which):
         "try": lambda: {"label": "dporTry", "n": 3, "invariants": False, "progs": dporcheck.space(3, ["ld", "st", "csld", "try"], ["x"], ["m"], 2, 0)},
         # main joins every thread (JoinHandle::join = Notify::wait) and reads the locations afterwards
         "join": lambda: {"label": "dporJoin", "n": 3, "progs": dporcheck.space_joined(3, ["ld", "st", "csst", "csld"], ["x", "y"], ["m"], 2, ["x", "y"])},
+        # Condvar (FIFO wake-up, lost notifications, notify with and without the mutex): deadlocks are outcomes too
+        "cv": lambda: {"label": "dporCv", "n": 3, "progs": dporcheck.space(3, ["cvw", "cvwld", "cvset1", "cvsetall", "cvn1in", "n1", "nall"], ["s"], ["m"], 1, 1)},
+        "cv2": lambda: {"label": "dporCv2", "n": 3, "progs": dporcheck.space(3, ["cvwld", "cvset1", "n1", "ld"], ["s"], ["m"], 2, 0)},
         "rw": lambda: {"label": "dporRw", "n": 3, "progs": dporcheck.space(3, ["rdld", "wrst", "wrld", "ld", "st"], ["x"], ["m"], 2, 0)},
         "rw4": lambda: {"label": "dporRw4", "n": 4, "progs": dporcheck.space(4, ["rdld", "wrst", "rdst"], ["x"], ["m"], 1, 0)},
         "rwtry": lambda: {"label": "dporRwTry", "n": 3, "invariants": False,
@@ -335,6 +338,8 @@ def C08(ctx):
     ctx.assumptions += ["condvar: no spurious wake-ups; notify_one wakes any one waiter (Upper) / the first (Lower)",
                         "Notify: at most one spurious return per object (Upper) / none (Lower)"]
     sync_family(ctx, families.waits(ctx.tier, ctx.seed))
+    # Dpor.tla with Condvar, park/unpark (conformance only: F15) and JoinHandle::join: whole program spaces
+    dpor_space(ctx, [None], ("C01",), quick_sample=70, spaces=dpor_extra_spaces(["cv", "cv2", "park", "join"]))
 
 
 def C09(ctx):
